@@ -23,6 +23,11 @@ pub struct C09 {
 fn hostile_class(labels: &[String]) -> String {
     // the most specific label: a degenerate/hostile member if there is one
     for l in labels {
+        if let Some(i) = l.find("hostile:skeleton") {
+            return l[i..].to_string();
+        }
+    }
+    for l in labels {
         if let Some(i) = l.find("degenerate:") {
             let s = &l[i..];
             return s.split('+').next().unwrap_or(s).to_string();
@@ -199,6 +204,29 @@ fn scenario_history(mon: &mut C09, case_seed: u64, r: &mut Rng) {
                     txs[i] = t;
                     labels[i] = format!("{}+hostile:byte-mutated", labels[i]);
                 }
+            }
+            // sometimes add a skeleton: a transaction of any kind stripped of the parts the code may take for granted
+            // (no inputs, no or zero-valued outputs, no fee, no covenants), with the member's data or none
+            if w.rng.chance(1, 6) {
+                let i = w.rng.usize(txs.len());
+                let mut t = txs[i].clone();
+                t.kind = *w.rng.pick(&[TxKind::Normal, TxKind::Stake, TxKind::DoscMint, TxKind::Swap, TxKind::LiqDeposit, TxKind::LiqWithdraw, TxKind::Faucet]);
+                t.inputs.clear();
+                t.fee = melstructs::CoinValue(0);
+                match w.rng.below(3) {
+                    0 => t.outputs.clear(),
+                    1 => t.outputs.iter_mut().for_each(|o| o.value = melstructs::CoinValue(0)),
+                    _ => t.outputs.truncate(1),
+                }
+                if w.rng.chance(1, 2) {
+                    t.covenants.clear();
+                    t.sigs.clear();
+                }
+                if w.rng.chance(1, 3) {
+                    t.data = Bytes::new();
+                }
+                labels.push(format!("hostile:skeleton-no-inputs,{}", t.kind));
+                txs.push(t);
             }
             mon.journal(&format!("C09 case={} block={} batch={} apply_tx_batch labels={:?}", case_seed, b, k, labels));
             let ev = w.apply_batch(txs, labels);
